@@ -37,10 +37,10 @@ ASSUMPTIONS = ['defaults of the enumerated parameters are type-correct for their
                'a method whose first visible parameter is missing or lazy is rejected at registration and is not part of the space']
 BOUNDS = {
     'quick': 'singles: parameter lists of <= 2 positional from 7 shapes [Any, A, B, Lazy, A?, A=default, C] x 11 extensions '
-             '[*r, **kw, kW optional/required, kW with **kw, hidden Engine at 0 / Context at 1 / Engine at 2, combinations] x 3 kinds x 309 calls, both paths; '
+             '[*r, **kw, kW optional/required, kW with **kw, hidden Engine at 0 / Context at 1 / Engine at 2, combinations] x 3 kinds x 249 calls, both paths; '
              'pairs: 48 parameter lists squared (ext/function kinds) x {same, child, grandchild, exclusive} x 165 calls '
              '(text path for the same-layer families); kind mixing: 6 lists squared x 8 kind pairs x 4 layerings; '
-             '@no_kwargs: 9 lists, flags (T), (T,T), (T,F), (F,T) x 4 layerings; triples: 7 lists cubed x 5 layerings',
+             '@no_kwargs: 9 lists, flags (T), (T,T), (T,F), (F,T) x 3 layerings; triples: 7 lists cubed x 5 layerings',
     'thorough': 'singles: 10 shapes x 17 extensions (also typed/lazy *r, typed **kw, lazy kW) x 3 kinds x 349 calls '
                 '(constants 1, \'k\', kw); pairs: 156 lists squared x 4 layerings x 205 calls; kind mixing and @no_kwargs on 16 lists; '
                 'triples: 22 lists cubed x 5 layerings',
@@ -166,8 +166,9 @@ def call_set(tier, size='full'):
             out.append((None, args, ()))
     kwvals = [V('a'), V('c'), K(None), K(1)]
     if size == 'full':
-        prefixes = [(), (V('a'),), (V('c'),), (K(1),), (SKIP,), (V('a'), V('a')), (V('a'), SKIP), (SKIP, V('a')),
-                    (V('c'), V('a'))]
+        prefixes = [(), (V('a'),), (SKIP,), (V('a'), V('a')), (V('a'), SKIP), (SKIP, V('a'))]
+        if tier == 'thorough':
+            prefixes += [(V('c'),), (K(1),), (V('c'), V('a'))]
         names = ['x', 'y', 'kW', 'k_w', 'zz']
     else:
         prefixes = [(), (V('a'),), (V('a'), SKIP)]
@@ -394,6 +395,8 @@ def job_nokw(tier, firsts):
         pl = pls[i]
         run_family(res, ('nokw1', i), layerings(1)['one']((overload(0, pl, kind_for(pl), True),)), calls)
         for name, lay in sorted(layerings(2).items()):
+            if name == 'grandchild' and tier == 'quick':
+                continue
             for j in range(len(pls)):
                 for f1, f2 in ((True, True), (True, False), (False, True)):
                     o = (overload(0, pl, kind_for(pl), f1), overload(1, pls[j], kind_for(pls[j]), f2))
